@@ -111,11 +111,11 @@ CLAIMED = {
  'C02': dict(text='rx_no_corruption: for every group-function reaction satisfying a frame contract (proved for the library handlers), every clean node and EVERY operation list (any interleaving, any losses, any number of senders '
                   'and slots, any clock), each non-TP delivery is justified by an increasing run of arrived frames (one first frame, continuation frames with the same PGN/source/destination and consecutive sequence bytes, '
                   'announced length reached exactly at the last frame, payload/priority/addresses taken from them) and no frame justifies two deliveries; runs_are_sent ties such runs to ONE sent message unless 8 messages of '
-                  'the PGN were started in between; rx_complete: from an idle table, with no more (PGN,source,destination) keys in the queue than slots, every complete in-order run is delivered whatever is interleaved; '
+                  'the PGN were started in between; rx_complete / rx_complete_run: from an idle table, with no more (PGN,source,destination) keys than slots, every complete in-order run is delivered whatever is interleaved - in one loop, and over whole histories (frames spread over any number of polls, arbitrary clock steps: no eviction can occur under the key bound); '
                   'over-long announcements never delivered; single frames delivered with DLC; supersede (always the slot of the key) and out-of-sequence discard.  Model tied to the C++ by correspondence on frame streams '
                   'incl. all interleavings of 2 senders x 3 frames x 64 drop patterns (thorough).',
-             note=TB + 'The stale-slot defect found by the refuted completeness statement was repaired in /repo (797643b) and completeness is now proved.  rx_complete is stated for one ParseMessages loop from an idle table; across polls '
-                  'the step theorems compose (rx_table_kept, poll_is_loop, 100 ms slot-age hypothesis).  No ordering statement for deliveries; ISO-TP deliveries are C10.',
+             note=TB + 'The stale-slot defect found by the refuted completeness statement was repaired in /repo (797643b) and completeness is now proved.  rx_complete_run assumes the node stays open (stays_open) and counts the keys of all frames of the history against the slots; beyond that bound '
+                  'the step theorems compose under the 100 ms slot-age hypothesis.  Exactly-once is given as at-most-once (NoDup of justifications) plus delivery; no ordering statement; ISO-TP deliveries are C10.',
              design='6 C02', technique='Coq invariant proof over executable model + extracted-model/implementation correspondence'),
  'C12': dict(text='Theorems about the heartbeat part of the node model: the next time is always the least grid point offset+k*period after now (late polling delays, never shifts); for every poll pattern a heartbeat is sent at '
                   'the first poll at or after each grid point; the interval field is the configured interval in 10 ms units for the whole settable range 1000..655320 ms and the sequence counter runs 0..252 and wraps, for '
